@@ -619,6 +619,8 @@ def build_dest(w, mode, cfg, deco, names):
         r = ref_of(cfg, n)
         if r != 'kcreate':
             continue
+        if any(ref_of(cfg, a) == 'kcreate' for a in ancestors(nodes, n)):
+            continue            # never attempted: its directory is refused
         can_conflict = cfg['dst'] == 'dir'
         if can_conflict and (not snk_srv or deco.d.get('conflict')):
             rel = relpath(n)
@@ -1086,9 +1088,6 @@ def run_script(setup, log, final, deco, label=''):
     # ---- file system of the real side ----
     if real_role == 'src':
         mode = 'download' if real_is_server else 'upload'
-        tops = [n for n in nodes if nodes[n]['par'] == 0]
-        if len(tops) > 1 and not real_is_server and not cfg['mustdir']:
-            pass
         names, real, tops, use_glob = build_source(w, mode, cfg, deco)
         obs['names'] = names
         for n in nodes:
@@ -1318,6 +1317,11 @@ def run_script(setup, log, final, deco, label=''):
                 V.append(('RefusalsReported',
                           f'nothing was refused but the caller got '
                           f'{exc_text(raised) or res["errors"]}'))
+    if not real_is_server and final.get('fatal') and m_raised != 0 and \
+            raised is None:
+        V.append(('FatalRaised',
+                  f'the peer reported a fatal error but asyncssh.scp() '
+                  f'returned normally (error_handler got {res["errors"]})'))
     if not real_is_server and disturbed and m_raised == CONN and \
             raised is None and not errs:
         V.append(('RefusalsReported',
